@@ -133,6 +133,13 @@ func decode(p *ParagraphReader, into reflect.Value) error {
 func decodeStruct(p Paragraph, into reflect.Value) error {
 	/* If we have a pointer, let's follow it */
 	if into.Type().Kind() == reflect.Ptr {
+		if into.IsNil() {
+			/* an element of a []*T, say: make the T to decode into */
+			if !into.CanSet() {
+				return fmt.Errorf("Can't decode into a nil pointer")
+			}
+			into.Set(reflect.New(into.Type().Elem()))
+		}
 		return decodeStruct(p, into.Elem())
 	}
 
